@@ -159,7 +159,7 @@ def objective(structure):
     return total
 
 
-def optimum(pairs, cap_nodes=2_000_000):
+def optimum(pairs, cap_nodes=400_000):
     """Exact maximum of `objective` over proper level assignments of the stems: the conflict graph is
     split into connected components, each solved by branch and bound.  Returns (value, nodes) or
     (None, nodes) when the node cap was hit."""
@@ -208,17 +208,62 @@ def _optimum_component(st, cap_nodes):
     class Cap(Exception):
         pass
 
+    clique_bound = n >= 7
+
     def optimistic(pos):
-        """Upper bound on what the still unassigned stems can add: each on the lowest level not taken by an
-        already assigned crossing stem (ignores conflicts among the unassigned ones)."""
+        """Upper bound on what the still unassigned stems can add.  Small components: each on the lowest level
+        not taken by an already assigned crossing stem (ignores conflicts among the unassigned ones).  Larger
+        components: the unassigned stems are split greedily into groups of mutually crossing stems; the members
+        of one group need distinct levels, each not below its own lowest free level - that relaxation (unit
+        jobs with release dates, cost weight x level, levels blocked for every member skipped) is solved exactly
+        by 'lowest level first, heaviest available stem first', which makes big ladders (cliques) and
+        near-cliques cheap."""
         total = 0
+        lows = {}
+        useds = {}
         for q in range(pos, n):
             a = order[q]
             used = {level[b] for b in adj[a] if level[b] is not None}
             lev = 0
             while lev in used:
                 lev += 1
-            total += nts[a] if lev == 0 else -lev * nts[a]
+            lows[a] = lev
+            useds[a] = used
+            if not clique_bound:
+                total += nts[a] if lev == 0 else -lev * nts[a]
+        if not clique_bound:
+            return total
+        groups = []
+        for q in range(pos, n):
+            a = order[q]
+            for g in groups:
+                if all(b in adj[a] for b in g):
+                    g.append(a)
+                    break
+            else:
+                groups.append([a])
+        for g in groups:
+            if len(g) == 1:
+                a = g[0]
+                total += nts[a] if lows[a] == 0 else -lows[a] * nts[a]
+                continue
+            pending = sorted(g, key=lambda a: lows[a])
+            blocked = set.intersection(*(useds[a] for a in g))  # levels none of the members may take
+            avail = []
+            lev = 0
+            k = 0
+            while k < len(pending) or avail:
+                if not avail and lows[pending[k]] > lev:
+                    lev = lows[pending[k]]
+                while lev in blocked:
+                    lev += 1
+                while k < len(pending) and lows[pending[k]] <= lev:
+                    avail.append(nts[pending[k]])
+                    k += 1
+                avail.sort()
+                w = avail.pop()
+                total += w if lev == 0 else -lev * w
+                lev += 1
         return total
 
     def rec(pos, value):
